@@ -265,6 +265,9 @@ pub fn run(tier: Tier) -> i32 {
         Box::new(ms_d(t)),
         Box::new(ms_e(if t { 1 } else { 0 })),
         Box::new(string_family()),
+        Box::new(crate::families::scale_family(true)),
+        Box::new(crate::families::unicode_family()),
+        Box::new(crate::families::relation_family()),
     ];
     let corpus = corpus_files();
     let mut items = Vec::new();
